@@ -951,3 +951,8 @@ mod tests {
         }
     }
 }
+
+// Verification hook (/verif): contract proof harnesses; compiled only by `cargo kani`.
+#[cfg(kani)]
+#[path = "/verif/kani/compiled_expr.rs"]
+mod verif_kani;
